@@ -87,7 +87,11 @@ def load_known():
 def check_obligations(ctx, mod):
     """Build Props/<id>.vo and read Print Assumptions."""
     rel = mod.PROPS_FILE
-    bad = coqtools.grep_gate()
+    # forbidden constructs in every file this property's theorems and models depend on
+    files = set(coqtools.closure(rel))
+    for m in getattr(mod, "MODEL_FILES", []):
+        files |= set(coqtools.closure(m))
+    bad = coqtools.grep_gate(sorted(files))
     if bad:
         ctx.obligation_broken("grep-gate", "\n".join(bad[:20]))
     models = [m + "o" for m in getattr(mod, "MODEL_FILES", [])]
